@@ -429,6 +429,15 @@ def _write_beats(op, nbm, rng):
 
 
 def run_conv(case):
+    r = _run_conv(case)
+    if not r.get("ok") and case["dir"] == "down" and any(op["size"] <= _log2(case["dws"] // 8) and op["size"] < _log2(case["dwm"] // 8) for op in case["ops"]):
+        # known finding: transfers not wider than the narrow bus keep their size but are still expanded to `ratio` beats from
+        # the wide-aligned address (never generated; the witnesses are replayed)
+        r["key"] = "c10:down-narrow-size"
+    return r
+
+
+def _run_conv(case):
     import random
     from migen import Module
     from litex.soc.interconnect import axi
